@@ -23,7 +23,7 @@
 
 /* ------------------------------------------------------------------ targets */
 typedef struct { const char *name; OrcTarget *t; unsigned flags; int vecbytes; } Tgt;
-static Tgt tgts[8];
+static Tgt tgts[16];
 static int n_tgts;
 
 static void add_target (const char *name, int vecbytes)
@@ -763,6 +763,11 @@ static void shrink_and_report (ProgSpec *ps0, const Tgt *tg, const RunCfg *cfg0,
   }
   make_sig (sig, sizeof sig, &ps, tg, &f, &cfg);
   cfg_json (&b, &ps, tg, &cfg, &f, caseidx);
+  if (!strcmp (vh_args.mode, "c11x") && (f.kind == F_MISMATCH || f.kind == F_ACC)) {
+    /* same monitor, reported under C11 with the flag set in the signature */
+    char sig2[480]; snprintf (sig2, sizeof sig2, "C11|exec|flags=%#x|%s", tg->flags, sig);
+    vh_violation ("C11", sig2, f.what, b.p);
+  } else
   vh_violation (fail_prop[f.kind], sig, f.what, b.p);
   free (b.p);
   memcpy (param_val, saved_params, sizeof saved_params);
@@ -900,6 +905,30 @@ int main (int argc, char **argv)
     report_mask = (1u << F_REF_EMU) | (1u << F_FAULT_EMU) | (1u << F_CANARY_EMU);
     mode_prop = "C02"; mode_profile = GP_INT | GP_ACC | GP_2D | GP_EXPLICIT_LS | GP_SPECIAL; mode_placements = 1 << PL_MID; want_ref = 1;
     N_single = -1; N_pairs = vh_args.thorough ? -1 : 2000; N_random = vh_args.thorough ? 20000 : 2500; N_special = vh_args.thorough ? 3000 : 400;
+  } else if (!strcmp (mode, "c11x")) {
+    /* every feature-flag subset of sse and mmx (64-bit): single-opcode programs must compute the same results */
+    static char names[64][24]; int k = 0, i; unsigned m;
+    OrcTarget *sse = orc_target_get_by_name ("sse"), *mmx = orc_target_get_by_name ("mmx");
+    unsigned sd = orc_target_get_default_flags (sse), md = orc_target_get_default_flags (mmx);
+    unsigned sall = ORC_TARGET_SSE_SSE2 | ORC_TARGET_SSE_SSE3 | ORC_TARGET_SSE_SSSE3 | ORC_TARGET_SSE_SSE4_1 | ORC_TARGET_SSE_SSE4_2;
+    unsigned mall = ORC_TARGET_MMX_MMXEXT | ORC_TARGET_MMX_SSSE3 | ORC_TARGET_MMX_SSE4_1 | ORC_TARGET_MMX_3DNOW | ORC_TARGET_MMX_3DNOWEXT;
+    n_tgts = 0;
+    for (m = 0; m < 16 && n_tgts < 8; m++) {
+      unsigned f = ORC_TARGET_SSE_SSE2 | ((m & 1) ? ORC_TARGET_SSE_SSE3 : 0) | ((m & 2) ? ORC_TARGET_SSE_SSSE3 : 0) | ((m & 4) ? ORC_TARGET_SSE_SSE4_1 : 0) | ((m & 8) ? ORC_TARGET_SSE_SSE4_2 : 0);
+      /* 7 of the 16 subsets per shard-independent rotation keeps the run short: pick by seed */
+      if (((m + vh_args.seed) % 16) >= 7 && m != 0 && m != 15) continue;
+      snprintf (names[k], sizeof names[k], "sse"); tgts[n_tgts].name = names[k++]; tgts[n_tgts].t = sse; tgts[n_tgts].flags = (sd & ~sall) | f; tgts[n_tgts].vecbytes = 16; n_tgts++;
+    }
+    for (m = 0; m < 8 && n_tgts < 13; m++) {
+      unsigned f = ORC_TARGET_MMX_MMX | ((m & 1) ? ORC_TARGET_MMX_MMXEXT : 0) | ((m & 2) ? ORC_TARGET_MMX_SSSE3 : 0) | ((m & 4) ? ORC_TARGET_MMX_SSE4_1 : 0);
+      if (m != 0 && m != 1 && m != 7 && ((m + vh_args.seed) % 8) >= 2) continue;
+      snprintf (names[k], sizeof names[k], "mmx"); tgts[n_tgts].name = names[k++]; tgts[n_tgts].t = mmx; tgts[n_tgts].flags = (md & ~mall) | f; tgts[n_tgts].vecbytes = 8; n_tgts++;
+      if (n_tgts >= 13) break;
+    }
+    (void) i;
+    report_mask = (1u << F_MISMATCH) | (1u << F_ACC) | (1u << F_FAULT_NATIVE) | (1u << F_CANARY_NATIVE) | (1u << F_ABI);
+    mode_prop = "C11"; mode_profile = GP_INT | GP_ACC | GP_HINTS; mode_placements = 1 << PL_MID; want_ref = 0;
+    N_single = -1; N_pairs = vh_args.thorough ? 3000 : 300; N_random = vh_args.thorough ? 6000 : 600; N_special = 0;
   } else { fprintf (stderr, "unknown mode %s\n", mode); return 2; }
   if (vh_args.limit > 0) { N_random = vh_args.limit; }
 
